@@ -41,6 +41,37 @@ PROPERTIES = {
                                              "counterparty ids come from the canonical and the clearly invalid region; the lenient region is C20's subject"],
         "tests": [{"test": "TestC08History", "quick": 300, "thorough": 40000}],
     },
+    "C09": {
+        "level": "exploration",
+        "rule": "rapid draws histories of PauseAction/UnpauseAction (every action name, unknown names, ACTION_UNSUPPORTED, foreign signers) "
+                "interleaved with probe transfers with and without a fee action. After every message: model verdict == result, model set == "
+                "exported state == both executor queries. Every probe runs on S and on S with every action pause removed: payload "
+                "containing a paused action => error ack and empty ledger delta; otherwise identical ack and ledger delta. "
+                "Non-trivial = a probe executed while >= 1 action is paused; distinct by (paused set, probe).",
+        "assumptions": COMMON_ASSUMPTIONS + ["PROD world has the fee controller only; the swap half is checked in the LAB world (C06 tests) when built"],
+        "tests": [{"test": "TestC09History", "quick": 300, "thorough": 40000}],
+    },
+    "C18": {
+        "level": "exploration",
+        "rule": "rapid draws histories of UpdateParams (values 0, 1, small, 2^16, 2^32-1 and arbitrary 32-bit values; authority and foreign "
+                "signers) and after the initial state and after every step probes the same valid transfer with passthrough lengths "
+                "0, 1, limit-1, limit, limit+1, 2*limit+7 (capped at 64 KiB): within the limit => success, above => error ack; the Params query "
+                "must report the last successfully set value. Non-trivial = a probe pair straddling a non-zero limit after >= 1 update; "
+                "distinct by (number of updates, limit, length).",
+        "assumptions": COMMON_ASSUMPTIONS + ["limits above 64 KiB are probed from below only"],
+        "tests": [{"test": "TestC18History", "quick": 300, "thorough": 30000}],
+    },
+    "C11": {
+        "level": "exploration",
+        "rule": "rapid draws a state S (short history of transfers/admin messages/environment steps), 1-4 direct deposits to the orbiter "
+                "account (65% in the transferred denom, tiny to 10^9, including exactly the transfer amount) and a transfer over all "
+                "routes/recipients/fee lists; the transfer runs on S and on S+deposits. Required equal: ack bytes, ledger delta of every "
+                "account other than orbiter and dust collector, third-party (bridge) events incl. CCTP nonce, exported statistics; in the "
+                "second run the deposited balance of the transferred denom ends on the dust collector and other denoms stay untouched. "
+                "Non-trivial = the transferred denom had a pre-existing balance and the base run succeeded; distinct by (deposits, transfer).",
+        "assumptions": COMMON_ASSUMPTIONS,
+        "tests": [{"test": "TestC11Pairs", "quick": 2000, "thorough": 200000}],
+    },
     "C12": {
         "level": "exploration",
         "rule": HISTORY_RULE + "After EVERY step the exported dispatcher state is compared with a ledger the harness folds from the "
